@@ -2,14 +2,15 @@
 # run_matrix.sh [tier] [budget_s] [filter] — run each seeded change under /verif/seeded against the check of its property,
 # in a scratch clone of /repo (HEAD), and record what detected it in meta.json. Not a registered command.
 TIER="${1:-quick}"; BUD="${2:-}"; FILTER="${3:-}"
-cd /verif || exit 2
+cd "$(dirname "$0")" || exit 2
+ROOT="$(pwd)"
 SCR=$(mktemp -d /tmp/matrix.XXXXXX)
 git clone -q /repo "$SCR/repo" || exit 2
 for d in seeded/*${FILTER}*/; do
   id=$(basename "$d"); prop=${id%%-*}
   [ -f "$d/patch.diff" ] || continue
-  ( cd "$SCR/repo" && git checkout -q -- . && git apply "/verif/$d/patch.diff" ) || { echo "$id APPLY-FAILED"; continue; }
-  props="$prop $(python3 -c "import json;print(' '.join(json.load(open('/verif/$d/meta.json')).get('also_run',[])))" 2>/dev/null)"
+  ( cd "$SCR/repo" && git checkout -q -- . && git apply "$ROOT/$d/patch.diff" ) || { echo "$id APPLY-FAILED"; continue; }
+  props="$prop $(python3 -c "import json;print(' '.join(json.load(open('$ROOT/$d/meta.json')).get('also_run',[])))" 2>/dev/null)"
   for p in $props; do
     t0=$(date +%s)
     out=$(VERIF_REPO="$SCR/repo" VERIF_BUDGET_S="$BUD" VERIF_NO_EVIDENCE=1 ./check "$p" "$TIER" 2>&1); rc=$?
